@@ -137,4 +137,19 @@ theorem cashaddr_roundtrip (hrp : List Char) (hv : ValidHrp hrp) (nv : UInt8) (d
 example : xmrDecode "1111111111z".toList = .ok [0, 0, 0, 0, 0, 0, 0, 57] := by decide +kernel
 example : xmrDecode "zz".toList = .error .value := by decide +kernel
 
+/-- **alphabet**: a string accepted by any decoder of the Bech32 family (Bech32, Bech32m/SegWit, CashAddr) is pure ASCII,
+whatever the Unicode case tables say — in particular the Kelvin sign, which `str.lower()` maps to `k`, is never accepted -/
+theorem bech_accepted_is_ascii (U : CaseOracle) (k : BechKind) {s : List Char} {r : List Char × List Nat}
+    (h : bechDecodeRaw U k s = .ok r) : ∀ c ∈ s, c.toNat < 128 := by
+  intro c hc
+  by_contra hn
+  have hany : (s.any fun c => decide (c.toNat ≥ 128)) = true :=
+    List.any_eq_true.mpr ⟨c, hc, by simpa using Nat.le_of_not_lt hn⟩
+  unfold bechDecodeRaw at h
+  simp only [hany, if_true] at h
+  cases h
+
+/-- the witness that used to be accepted: `…K…` spelled with U+212A is refused -/
+example : bechDecodeRaw asciiCase .bech32 ("A12UEL5L".toList ++ [Char.ofNat 0x212A]) = .error .value := by decide +kernel
+
 end BipVerif.Props.C10Codec
